@@ -82,6 +82,7 @@ Lemma sys_read_okp o n : okp o -> okp (fst (sys_read o n)).
 Proof.
   intros H. unfold sys_read.
   destruct (o_closed o || _); [exact H|].
+  destruct (match o_kind o with KLsn => true | _ => false end); [destruct (0 <? e_rq o); [apply (okp_same o); auto|exact H]|].
   destruct (0 <? e_rq o); [apply (okp_same o); auto|].
   destruct (e_rst o); [apply (okp_same o); auto|].
   destruct (o_kind o); try exact H; destruct (e_reof o); exact H.
@@ -141,11 +142,21 @@ Proof.
   pose proof (frame_set_obj b s i o1 Hp Ho1) as Hf.
   destruct (if w then o_wr o else o_rd o) as [p|]; [|split; [exact Hf|left; reflexivity]].
   destruct (negb (err =? xNil)); [split; [exact Hf|right; eexists; eexists; eexists; reflexivity]|].
-  pose proof (io_now_frame b 64 (set_obj s i o1) i w p false (frame_pollable _ _ _ Hf)) as Hf2.
-  pose proof (io_now_outcome 64 (set_obj s i o1) i w p false) as Hout.
-  generalize dependent (io_now 64 (set_obj s i o1) i w p false). intros r Hf2 Hout.
-  split; [exact (frame_trans _ _ _ _ Hf Hf2)|].
-  destruct Hout as [(e & n & H)|(H & _)]; [right; exists (op_cb p), e, n; exact H|left; exact H].
+  assert (Hlsn : frame b s (fst (let '(o2, r) := sys_read o1 0 in
+                                 (set_obj s i o2, [IInvoke (op_cb p) (match r with SGot _ => xNil | SEof => xEOF | SWouldBlock => xWouldBlock | SFail e => e end)
+                                                     (match r with SGot n => n | _ => 0 end) false]))) /\
+                 exists cb e n, snd (let '(o2, r) := sys_read o1 0 in
+                                 (set_obj s i o2, [IInvoke (op_cb p) (match r with SGot _ => xNil | SEof => xEOF | SWouldBlock => xWouldBlock | SFail e => e end)
+                                                     (match r with SGot n => n | _ => 0 end) false])) = [IInvoke cb e n false]).
+  { pose proof (sys_read_okp o1 0 Ho1) as Hr. destruct (sys_read o1 0) as [o2 r]. cbn [fst snd] in *.
+    split; [apply frame_set_obj; assumption|eexists; eexists; eexists; reflexivity]. }
+  destruct (o_kind o); try (split; [apply Hlsn|right; apply Hlsn]).
+  all: clear Hlsn.
+  all: pose proof (io_now_frame b 64 (set_obj s i o1) i w p false (frame_pollable _ _ _ Hf)) as Hf2.
+  all: pose proof (io_now_outcome 64 (set_obj s i o1) i w p false) as Hout.
+  all: generalize dependent (io_now 64 (set_obj s i o1) i w p false); intros r Hf2 Hout.
+  all: (split; [exact (frame_trans _ _ _ _ Hf Hf2)|]).
+  all: destruct Hout as [(e & n & H)|(H & _)]; [right; exists (op_cb p), e, n; exact H|left; exact H].
 Qed.
 
 Lemma write_event_frame b s i err :
